@@ -34,7 +34,10 @@ def patches(only):
         if not os.path.exists(meta):
             continue
         m = json.load(open(meta))
-        out.append((m['property'], 'seeded:' + os.path.basename(d), os.path.join(d, 'patch.diff')))
+        # a seeded change is run against the check(s) recorded as catching it (its own property unless it can only
+        # manifest through another property's workload, e.g. a cold-start race seeded under C15 -> C19)
+        owner = m['property'] if m['property'] in m.get('caught_by', [m['property']]) else m['caught_by'][0]
+        out.append((owner, 'seeded:' + os.path.basename(d), os.path.join(d, 'patch.diff')))
     if only:
         out = [x for x in out if x[0] in only]
     return out
@@ -48,7 +51,8 @@ def run_one(slot, prop, name, patch, tier, run_tests, checks):
         return {'property': prop, 'patch': name, 'status': 'patch does not apply', 'detail': r.stdout.decode()[-300:]}
     res = {'property': prop, 'patch': name, 'checks': {}}
     if run_tests:
-        t = sh('cd %s && /venv/bin/python -m pytest -q -x -p no:cacheprovider --timeout=900 2>&1 | tail -1' % tree)
+        t = sh("unshare -rn sh -c 'ip link set lo up; cd %s && /venv/bin/python -m pytest -q -x -p no:cacheprovider "
+               "--timeout=900 2>&1 | tail -1'" % tree)
         res['tests'] = t.stdout.decode().strip()
     env = dict(os.environ, HL7APY_REPO=tree, VERIF_EVIDENCE_DIR=os.path.join(SCRATCH_ROOT, 'evidence%d' % slot),
                VERIF_REPLAY_DIR=os.path.join(SCRATCH_ROOT, 'replay%d' % slot))
